@@ -304,6 +304,13 @@ Theorem C01_repetition_boundary : forall b n c k, 0 < wdur b -> (0 <= k < n)%Z -
 Proof. exact rep_boundary. Qed.
 Print Assumptions C01_repetition_boundary.
 
+(* the same for sequences: a member of a SequenceWaveform starts exactly at the (exact) duration of the members before it *)
+Theorem C01_sequence_restarts : forall pre x post c s,
+  Forall (fun y => 0 <= wdur y) pre -> 0 <= s -> s < wdur x ->
+  wsample (WSeq (pre ++ x :: post)) c (wdur (WSeq pre) + s) = wsample x c (Qred s).
+Proof. exact seq_restarts. Qed.
+Print Assumptions C01_sequence_restarts.
+
 (* the seed's input: a ramp 0 -> 1 of duration 1/10 repeated four times, instantiated from the template and sampled
    through to_waveform on the repetition starts k/10: every sample is the START value 0 (the changed code answers the
    end value at 3/10); between them the ramp (1/2 at 7/20) *)
